@@ -7,6 +7,8 @@ import (
 	"time"
 
 	dtpb "github.com/google/fhir/go/proto/google/fhir/proto/r4/core/datatypes_go_proto"
+	mkpb "github.com/google/fhir/go/proto/google/fhir/proto/r4/core/resources/medication_knowledge_go_proto"
+	opb "github.com/google/fhir/go/proto/google/fhir/proto/r4/core/resources/organization_go_proto"
 	ppb "github.com/google/fhir/go/proto/google/fhir/proto/r4/core/resources/patient_go_proto"
 	"github.com/verily-src/fhirpath-go/fhirpath/zzverif/lib"
 	"github.com/verily-src/fhirpath-go/internal/element/extension"
@@ -70,7 +72,9 @@ type obsStep struct {
 	Frozen   bool    `json:"frozen"`        // everything of the owner other than its extension list is unchanged
 }
 
-var owners = []string{"Patient", "HumanName", "String", "Contact"}
+// OrgContact and KnowledgeDosage share their short message names with Contact (Patient.Contact) and with the datatype Dosage:
+// message types of one short name are operated on in one process
+var owners = []string{"Patient", "HumanName", "String", "Contact", "OrgContact", "Dosage", "KnowledgeDosage"}
 
 func newOwner(kind string) fhir.Extendable {
 	mod := []*dtpb.Extension{{Url: &dtpb.Uri{Value: "http://example.org/modifier"}, Value: &dtpb.Extension_ValueX{Choice: &dtpb.Extension_ValueX_Boolean{Boolean: &dtpb.Boolean{Value: true}}}}}
@@ -83,6 +87,12 @@ func newOwner(kind string) fhir.Extendable {
 		return &dtpb.String{Id: &dtpb.String{Value: "s"}, Value: "text"}
 	case "Contact":
 		return &ppb.Patient_Contact{Id: &dtpb.String{Value: "c"}, ModifierExtension: mod}
+	case "OrgContact":
+		return &opb.Organization_Contact{Id: &dtpb.String{Value: "oc"}, ModifierExtension: mod}
+	case "Dosage":
+		return &dtpb.Dosage{Id: &dtpb.String{Value: "d"}, ModifierExtension: mod, Text: &dtpb.String{Value: "daily"}}
+	case "KnowledgeDosage":
+		return &mkpb.MedicationKnowledge_AdministrationGuidelines_Dosage{Id: &dtpb.String{Value: "kd"}, ModifierExtension: mod}
 	}
 	lib.Fatal("unknown owner kind %q", kind)
 	return nil
